@@ -16,7 +16,7 @@ TECH = "machine-checked proof in Coq 8.16.1 about an executable Gallina model; m
 
 P = {
  "C01": dict(
-  text="Partial. Theorems (all inputs): exact crossing oracle (cross_b_spec, parametric form over Q), sound validity oracle, half-pixel closeness of every routed edge (routed_edge_close), the sweep lemma of snap rounding; on the class of C18, end to end, two partial results: returned edges whose source edges are farther than one pixel apart have no common point (C01_partial_far_edges_do_not_meet, from the C18 edge theorem + half-pixel closeness + the triangle inequality) and two steps of one routed chain never cross (C01_partial_same_chain_no_cross, columns and rows are monotone in travel order) — what is left are steps of different chains whose source edges come within one pixel of each other; C01_refuted / C01_refuted_implication: the full statement is machine-checked FALSE for the faithful model on a valid polygon with a hole (finding F5), replayed on the implementation. The global implication 'valid input => no crossing' (Guibas-Marimont deformation argument) is NOT a theorem: decided on every run by exact search over generated valid polygons on the implementation; model tied by vm_compute correspondence on edge multisets.",
+  text="Partial. Theorems (all inputs): exact crossing oracle (cross_b_spec, parametric form over Q), sound validity oracle, half-pixel closeness of every routed edge (routed_edge_close), the sweep lemma of snap rounding; on the class of C18, end to end, two partial results: returned edges whose source edges are farther than one pixel apart have no common point (C01_partial_far_edges_do_not_meet, from the C18 edge theorem + half-pixel closeness + the triangle inequality) and two steps of one routed chain never cross (C01_partial_same_chain_no_cross, columns and rows are monotone in travel order) and, the discrete half of the deformation argument at its end point, no vertex of the returned geometry lies in the interior of a returned edge (C01_partial_no_vertex_inside_edge_on_class: the centre of a hot pixel on a routed step is an end of it) — what is left is the continuity half (segments moving linearly cannot start to cross without an end point passing through the other; the contact time is irrational in general, so it needs the reals) for steps of different chains whose source edges come within one pixel of each other; C01_refuted / C01_refuted_implication: the full statement is machine-checked FALSE for the faithful model on a valid polygon with a hole (finding F5), replayed on the implementation. The global implication 'valid input => no crossing' (Guibas-Marimont deformation argument) is NOT a theorem: decided on every run by exact search over generated valid polygons on the implementation; model tied by vm_compute correspondence on edge multisets.",
   note="Trusted: Coq kernel+vm_compute; hand-written Index/Snap model tied by correspondence (tie H) on every run and G2 for the leaf functions; float predicates modelled by exact integer versions (checked envelope); search is not proof for the global clause. Known finding F5 attributed by mechanism.",
   tech=TECH + " (tie H + G2); exact-arithmetic search for the unproved global clause", ref="DESIGN.md 6 C01"),
  "C02": dict(
